@@ -1099,6 +1099,16 @@ impl<'a> Gen<'a> {
         if !self.world.args.list && self.rng.chance(1, 8) {
             self.world.args.dashdash = true;
         }
+        // a large file (over 1 MiB): not mentioned by the diff, so that the filler stays out of stdin
+        for f in &mut self.world.files {
+            if matches!(f.diff, FileDiff::None)
+                && [".py", ".rb", ".sh"].iter().any(|e| f.path.ends_with(e))
+                && f.lang.is_none()
+                && self.rng.chance(1, 50)
+            {
+                f.pad_kib = 1100;
+            }
+        }
         // a type change: the added file replaces a symbolic link of the same name
         for f in &mut self.world.files {
             if matches!(f.diff, FileDiff::Added) && !f.path.contains(' ') && self.rng.chance(1, 12) {
